@@ -41,6 +41,25 @@ def fsck(src, img, flags, tag):
     return rc, probs, out
 
 
+def journal_crosslinked(path):
+    """does some other inode map a block of the internal journal?"""
+    try:
+        fs = Fs(path)
+        if not fs.journal_inum:
+            return False
+        J = {p for p, _ in fs.file_map(fs.journal_inum, fs.inode(fs.journal_inum))[0].values()}
+        for ino in corrupt.regular_files(fs) + corrupt.directories(fs):
+            try:
+                m, _ = fs.file_map(ino, fs.inode(ino))
+            except (FormatError, struct.error, IndexError, ValueError, KeyError, RecursionError):
+                continue
+            if any(p in J for p, _ in m.values()):
+                return True
+    except Exception:
+        return False
+    return False
+
+
 def dir_cycle(src, base, img):
     """two directories that are each other's parent, with consistent link counts, reachable from nowhere"""
     shutil.copy(base, img)
@@ -78,12 +97,13 @@ def one_case(src, idx, seed, tier, keep=False):
         desc = corrupt.corrupt(base, img, r)
     recipe = {"base": name, "mke2fs": opts, "size": size, "build_seed": 1 + (idx // 200) % 3, "case_index": idx, "operators": desc}
     cons0 = judge_consistency(img)
+    jx = journal_crosslinked(img) if cons0 else False
     rc_n, probs_n, out_n = fsck(src, img, ["-fn"], "n1")
     before = open(img, "rb").read() if False else None
     rc_y, probs_y, out_y = fsck(src, img, ["-fy"], "y")
     rc_n2, probs_n2, out_n2 = fsck(src, img, ["-fn"], "n2")
     cons2 = judge_consistency(img) if rc_n2 == 0 else "skipped"
-    res = {"recipe": recipe, "cons0": cons0, "rc_n": rc_n, "probs_n": probs_n, "rc_y": rc_y, "probs_y": probs_y,
+    res = {"recipe": recipe, "cons0": cons0, "journal_crosslinked": jx, "rc_n": rc_n, "probs_n": probs_n, "rc_y": rc_y, "probs_y": probs_y,
            "rc_n2": rc_n2, "probs_n2": probs_n2, "cons2": cons2, "out_n": out_n[-400:], "out_n2": out_n2[-600:], "out_y": out_y[-300:]}
     if not keep:
         os.unlink(img)
